@@ -242,17 +242,25 @@ WriteVar(cls, i, v) ==
 (* Reading through a wrapper, by every access path.  Result per component:  *)
 (* which object the returned reference designates (or "value" when the call  *)
 (* returns by value) and the value read.                                      *)
-ByValForms == {"rget", "conv", "cconv", "rv", "crv", "rfree", "rbind"}   \* return a value when the closure owns its value
+ByValForms == {"rget", "conv", "cconv", "rv", "crv", "rfree", "rbind", "crget", "rconv", "rvbind"}   \* return a value when the closure owns its value
+(* round 4: the value category of the wrapper is an axis of every access path.                                          *)
+(* crget:  std::move(as_const(w)).get() read inside the full expression (a const rvalue wrapper: value or const ref)    *)
+(* rconv:  const T& r = W(w);  -- the implicit conversion of a TEMPORARY copy of the wrapper bound to a reference        *)
+(* rvbind: auto&& r = O(o).value() / .has_value() / .real() / .imag() / .visible()  -- the rvalue accessor of a          *)
+(*         TEMPORARY copy of a two-component wrapper, one temporary per component                                       *)
+(* The results of the forms in OutliveForms are read AFTER the temporary wrapper is gone.                               *)
+OutliveForms == {"rbind", "rconv", "rvbind"}
 (* rbind:  auto&& r = W(w).get();  -- the rvalue accessor of a TEMPORARY copy of the wrapper, its result bound to a     *)
 (* reference; the temporary wrapper is gone at the end of the declaration and r is read afterwards: for a reference      *)
 (* closure r is the caller's object, for an owning one r must be a value of its own (lifetime-extended), never a         *)
 (* reference into the dead wrapper ("stays valid after the temporary is gone")                                           *)
 FormsOf(W) ==
-    CASE W.kind = "cw" -> {"get", "cget", "rget", "conv", "cconv", "rbind"}
-      [] W.kind = "pw" -> IF IsRef(W, 1) THEN {"get", "cget", "rget", "conv", "cconv"} ELSE {"base"}
+    CASE W.kind = "cw" -> {"get", "cget", "rget", "conv", "cconv", "rbind", "crget", "rconv"}
+      [] W.kind = "pw" -> IF IsRef(W, 1) THEN {"get", "cget", "rget", "conv", "cconv", "rbind", "crget", "rconv"} ELSE {"base"}
       [] W.kind = "cp" -> {"deref", "cderef", "arrow"}
-      [] W.kind \in {"opt", "ob", "cx"} -> {"lv", "clv", "rv", "crv", "free", "cfree", "rfree"}   \* members and the free functions value/has_value, real/imag
-      [] W.kind = "mv" -> {"lv", "clv", "rv", "crv"}
+      [] W.kind \in {"opt", "cx"} -> {"lv", "clv", "rv", "crv", "free", "cfree", "rfree", "rvbind"}   \* members and the free functions value/has_value, real/imag
+      [] W.kind = "ob" -> {"lv", "clv", "rv", "crv", "free", "cfree", "rfree"}
+      [] W.kind = "mv" -> {"lv", "clv", "rv", "crv", "rvbind"}
       [] W.kind = "br" -> {"conv", "neg"}
       [] W.kind = "fs" -> {"get"}
 (* what reading component i of W by access path `form` yields *)
@@ -260,7 +268,7 @@ ReadItem(W, i, form) ==
     LET byval == IsOwn(W, i) /\ form \in ByValForms
     IN [ts |-> IF IsBit(W, i) THEN {"bit"}
                ELSE IF IsRef(W, i) THEN {W.c[i].id}
-               ELSE IF form = "rbind" THEN {"value"}
+               ELSE IF form \in OutliveForms THEN {"value"}
                ELSE IF byval THEN {"value", "self"} ELSE {"self"},
         v  |-> IF form = "neg" THEN 1 - Val(W.c[i].id) ELSE Val(W.c[i].id)]
 Read(k, form) ==
@@ -449,7 +457,7 @@ C(c) == /\ c \in Classes
              THEN IF c \in {"make", "clone"} THEN NOps = 0 /\ Len(hist) < Depth ELSE NOps < Ops
              ELSE Len(hist) <= Depth
 (* one named action per public call family, so that TLC's coverage reports each of them *)
-AllForms == {"get", "cget", "rget", "rbind", "conv", "cconv", "base", "deref", "cderef", "arrow",
+AllForms == {"get", "cget", "rget", "rbind", "crget", "rconv", "rvbind", "conv", "cconv", "base", "deref", "cderef", "arrow",
              "lv", "clv", "rv", "crv", "free", "cfree", "rfree", "neg"}
 AMake       == C("make") /\ \E k \in 1..NW, kind \in Kinds : \E via \in Vias(kind) :
                   \/ NComp(kind) = 1 /\ \E s1 \in SrcsFor(kind, 1) : Make(k, kind, via, <<s1>>)
